@@ -287,7 +287,7 @@ def _cls_c18(t, impl):
         return "%s:%s=%s" % (op, t[1], impl), True
     if op == "setord":
         return "setord:%s:%s" % (t[2], _kind_of(impl)), True
-    if op in ("conv", "powc", "npowc"):
+    if op in ("conv", "powc", "npowc", "tonum"):
         return "%s:%s" % (op, _kind_of(impl)), True
     if op == "un":
         return "un:%s:%s" % (t[1], _kind_of(impl)), True
